@@ -4394,11 +4394,12 @@ char *transpile_to_c(ASTNode *program, Environment *env, const char *input_file)
     /* Forward declare imported module functions */
     generate_module_function_declarations(sb, program, env, input_file, fn_registry);
     
-    /* Emit top-level globals */
-    generate_toplevel_globals(sb, program, env);
-    
     /* Forward declare functions from current program */
     generate_program_function_declarations(sb, program, env, fn_registry, tuple_registry);
+
+    /* Emit top-level globals (after the prototypes: an initializer may call a
+     * program function, and the runtime initializer is emitted right here) */
+    generate_toplevel_globals(sb, program, env);
 
     /* Generate function implementations */
     generate_function_implementations(sb, program, env, fn_registry, tuple_registry);
